@@ -1,0 +1,76 @@
+//! Read-only canonical dump of the index tables (feature `verif`).
+
+use super::*;
+
+macro_rules! dump_table {
+  ($rtx:expr, $out:expr, $table:ident) => {{
+    let mut rows = Vec::new();
+    for row in $rtx.open_table($table)?.iter()? {
+      let (key, value) = row?;
+      rows.push((format!("{:?}", key.value()), format!("{:?}", value.value())));
+    }
+    $out.insert(stringify!($table).to_string(), rows);
+  }};
+}
+
+macro_rules! dump_multimap_table {
+  ($rtx:expr, $out:expr, $table:ident) => {{
+    let mut rows = Vec::new();
+    for row in $rtx.open_multimap_table($table)?.iter()? {
+      let (key, values) = row?;
+      let mut list = Vec::new();
+      for value in values {
+        list.push(format!("{:?}", value?.value()));
+      }
+      rows.push((format!("{:?}", key.value()), list.join(",")));
+    }
+    $out.insert(stringify!($table).to_string(), rows);
+  }};
+}
+
+impl Index {
+  /// Every row of every table, keys and values rendered with `Debug`.
+  pub fn verif_dump(&self) -> Result<BTreeMap<String, Vec<(String, String)>>> {
+    let rtx = self.database.begin_read()?;
+    let mut out = BTreeMap::new();
+    dump_multimap_table!(rtx, out, LATEST_CHILD_SEQUENCE_NUMBER_TO_COLLECTION_SEQUENCE_NUMBER);
+    dump_multimap_table!(rtx, out, SAT_TO_SEQUENCE_NUMBER);
+    dump_multimap_table!(rtx, out, SCRIPT_PUBKEY_TO_OUTPOINT);
+    dump_multimap_table!(rtx, out, SEQUENCE_NUMBER_TO_CHILDREN);
+    dump_table!(rtx, out, COLLECTION_SEQUENCE_NUMBER_TO_LATEST_CHILD_SEQUENCE_NUMBER);
+    dump_table!(rtx, out, GALLERY_SEQUENCE_NUMBERS);
+    dump_table!(rtx, out, HEIGHT_TO_BLOCK_HEADER);
+    dump_table!(rtx, out, HEIGHT_TO_LAST_SEQUENCE_NUMBER);
+    dump_table!(rtx, out, HOME_INSCRIPTIONS);
+    dump_table!(rtx, out, INSCRIPTION_ID_TO_SEQUENCE_NUMBER);
+    dump_table!(rtx, out, INSCRIPTION_NUMBER_TO_SEQUENCE_NUMBER);
+    dump_table!(rtx, out, NUMBER_TO_OFFER);
+    dump_table!(rtx, out, OUTPOINT_TO_RUNE_BALANCES);
+    dump_table!(rtx, out, OUTPOINT_TO_UTXO_ENTRY);
+    dump_table!(rtx, out, RUNE_ID_TO_RUNE_ENTRY);
+    dump_table!(rtx, out, RUNE_TO_RUNE_ID);
+    dump_table!(rtx, out, SAT_TO_SATPOINT);
+    dump_table!(rtx, out, SEQUENCE_NUMBER_TO_INSCRIPTION_ENTRY);
+    dump_table!(rtx, out, SEQUENCE_NUMBER_TO_RUNE_ID);
+    dump_table!(rtx, out, SEQUENCE_NUMBER_TO_SATPOINT);
+    dump_table!(rtx, out, STATISTIC_TO_COUNT);
+    dump_table!(rtx, out, TRANSACTION_ID_TO_RUNE);
+    dump_table!(rtx, out, TRANSACTION_ID_TO_TRANSACTION);
+    dump_table!(rtx, out, WRITE_TRANSACTION_STARTING_BLOCK_COUNT_TO_TIMESTAMP);
+    Ok(out)
+  }
+
+  /// Ids of the persistent savepoints currently stored in the database.
+  pub fn verif_savepoints(&self) -> Result<Vec<u64>> {
+    let wtx = self.begin_write()?;
+    let mut savepoints = wtx.list_persistent_savepoints()?.collect::<Vec<u64>>();
+    savepoints.sort();
+    wtx.abort()?;
+    Ok(savepoints)
+  }
+
+  /// Whether an unrecoverable reorg has been flagged on this handle.
+  pub fn verif_unrecoverably_reorged(&self) -> bool {
+    self.unrecoverably_reorged.load(atomic::Ordering::Relaxed)
+  }
+}
